@@ -25,7 +25,7 @@ def gen_cases(tier, seed):
     quick = tier == "quick"
     n = 0
     yield from gen_twins(tier, seed)
-    yield from history.gen_cases(PROP, "c04", tier, seed, 400 if quick else 6000)
+    yield from history.gen_cases(PROP, "c04", tier, seed, 700 if quick else 8000)
     # (a) corpus, each entry under several environments
     entries = [e for e in pipeline.corpus_entries() if e not in pipeline.SLOW_OR_UNSTABLE]
     reps = 3 if quick else 12
